@@ -146,10 +146,10 @@ Quote(s, k) == {ResOut(s, [close |-> IF s.range = 0 THEN Cardinality(s.idx) ELSE
 \* The process stops: pending bodies and notes are lost.  On restart with the same identity the
 \* index is rebuilt from the files that authenticate; the cache is empty; the payment count comes
 \* from the metrics file (the constructor flushes the metrics again at once: not modelled as a task).
-\* tk: key whose file write was in progress at the crash and is left torn (0 = none); a torn file does
-\* not authenticate and is deleted by the start-up scan.
-Restart(s, tk) ==
-    LET disk2 == [k \in Key |-> IF k = tk THEN None ELSE s.disk[k]]
+\* T: keys whose file writes were in progress at the crash and are left torn (possibly several, possibly none); a
+\* torn file does not authenticate and is deleted by the start-up scan.
+Restart(s, T) ==
+    LET disk2 == [k \in Key |-> IF k \in T THEN None ELSE s.disk[k]]
         idx2 == {k \in Key : disk2[k] # None} IN
     {Res([Init0 EXCEPT !.idx = idx2, !.byDist = idx2, !.far = TrueFarthest(idx2), !.disk = disk2,
                        !.ty = disk2,                               \* the start-up scan types each record from its own bytes
@@ -417,5 +417,5 @@ ModelResults(x) ==
       [] x.ev = "Cleanup"         -> Cleanup(x.s, x.thr)
       [] x.ev = "PaymentReceived" -> PaymentReceived(x.s)
       [] x.ev = "Quote"           -> Quote(x.s, x.k)
-      [] x.ev = "Restart"         -> Restart(x.s, x.k)
+      [] x.ev = "Restart"         -> Restart(x.s, x.tks)
 =============================================================================
